@@ -132,10 +132,15 @@ def drain(engine, handler, cap=60, log=None):
 
 def work(case):
     ed, ops = case
-    out, engine, handler, log = SE.run_ops(ed, ops)
+    try:
+        out, engine, handler, log = SE.run_ops(ed, ops)
+        quiescent = drain(engine, handler, log=log)
+    except Exception as ex:      # noqa: the engine's loop thread would end here
+        return [-999], True, dict(signature="engine-update-raised", detail=None,
+                                  what="%s escaped the engine on valid input: %s (the run that was being handled yields no "
+                                       "complex event / action / action event)" % (type(ex).__name__, ex)), False
     fail = None
     adds = [op[1] for op in ops if op[0] == "add"]
-    quiescent = drain(engine, handler, log=log)
 
     def bad(sig, what, detail=None):
         return dict(signature=sig, what=what, detail=detail)
